@@ -127,7 +127,7 @@ def check(files, truth, run, rundir):
                     if atype in UNIQUE and len(feats) == 1 and (a.read_id, a.chr) in spliced:
                         must.add(feats[0])
                     per_read[a.read_id] += w * len(feats) if w else 0.0
-                check_table(pre + tname, table, model, nsum, must if level == "t" else set(), True, problems)
+                check_table(pre + tname, table, model, nsum, must, True, problems)
                 # per-read total contribution, judged on what the table actually contains
                 vals = table[0]
                 for rid, tot in per_read.items():
